@@ -1055,4 +1055,23 @@ theorem init_rinv (c : RCfg) (hrb : 0 < c.rb) (hrb6 : c.rb ≤ 6) (hw : c.w ≤ 
     rw [Array.getD_eq_getD_getElem?, Array.getElem?_replicate]
     split <;> rfl
 
+
+/-- **the hint overloads** `push_to_bucket(idx, v)` / `emplace_in_bucket(idx, …)` called with the bucket
+index that `get_bucket` / `get_bucket_key` report: succeed, keep the invariant (in particular the
+bucket minimum `mins_[idx]`), add exactly the new element -/
+theorem pushHint_spec {c : RCfg} (hrb : 0 < c.rb) (h : RH c) (fr : Option (BitVec c.w)) (hi : RInv c h fr)
+    (x : RVal c.w) (hx : ∀ f, fr = some f → f.toNat ≤ (rk c x).toNat) :
+    ∃ h', h.pushToBucket (h.getBucketKey x.1) x = some h' ∧ RInv c h' fr ∧ h'.contents.Perm (x :: h.contents) := by
+  obtain ⟨h', idx, e1, e2, e3⟩ := push_spec hrb h fr hi x hx
+  refine ⟨h', ?_, e2, e3⟩
+  unfold RH.push at e1
+  simp only [Option.bind_eq_bind, Option.pure_def] at e1
+  show h.pushToBucket (bucketOf c (rankOfInt c x.1) h.limit) x = some h'
+  cases hp : h.pushToBucket (bucketOf c (rankOfInt c x.1) h.limit) x with
+  | none => rw [hp] at e1; cases e1
+  | some h2 =>
+    rw [hp] at e1
+    simp only [Option.bind_some, Option.some.injEq, Prod.mk.injEq] at e1
+    rw [e1.1]
+
 end TlxVerif.C13
